@@ -1,17 +1,19 @@
 //! Harness binary `h_mux <PROP> --seed S --tier T [--count N] [--replay F]`.
 //! One module per property (`cNN.rs`, `pub fn run(args: &hcore::Args, out: &mut hcore::Out)`).
+mod c25;
+mod c26;
 
 fn main() {
     let args = hcore::Args::parse();
     hcore::quiet_panics();
     let mut out = hcore::Out::new();
     match args.prop.as_str() {
+        "C25" => c25::run(&args, &mut out),
+        "C26" => c26::run(&args, &mut out),
         p => {
-            let _ = &mut out;
             eprintln!("h_mux: unknown property {p}");
             std::process::exit(2);
         }
     }
-    #[allow(unreachable_code)]
     out.flush();
 }
